@@ -5,7 +5,7 @@
 (* (behaviour, stage); `bad` is the set of failed clauses, so one          *)
 (* invariant names everything that broke.                                  *)
 (*   CASES  : JSON file, array of behaviours                               *)
-(*   WHICH  : which family of clauses to evaluate (C03 | C04 | C05 | C06)  *)
+(*   WHICH  : which family of clauses to evaluate (C03 | C04 | C05 | C06 | C16)  *)
 (***************************************************************************)
 EXTENDS Props, Json, IOUtils
 
@@ -24,6 +24,7 @@ Verdict(t, i) ==
   IN IF Which = "C04" THEN FailedWF(s)
      ELSE IF Which = "C05" THEN FailedCV(CaseOf(t), s, nm # "input")
      ELSE IF Which = "C06" THEN FailedTables(s.H)
+     ELSE IF Which = "C16" THEN FailedViews(StageOf(t, i).hook, s)
      ELSE IF Which = "C03" THEN (IF nm = "branches" THEN FailedST(CaseOf(t), s) ELSE {})
      ELSE {"unknown-family"}
 
